@@ -169,7 +169,14 @@ def _r1(run, f, r, cfg, it_file, lnode, inode):
     sentinel = ("const", SENTINEL)
     stores = [e for e in r.events if e.kind == "store" and e.term[1][0][0] == "sub" and e.term[1][0][1] == L]
     calls_on = [e for e in r.events if e.kind == "call" and e.term[1][0] == "attr" and e.term[1][1] == L]
-    if not (show(L).startswith("os.listdir(") or (L[0] == "new" and "listdir" in show(L))):
+    def is_listing(t):
+        # the directory listing itself, or a plain copy of it (list(..) / tuple(..) keep order and content)
+        if t[0] == "new":
+            return "listdir" in show(t) and is_listing(t[2]) if t[2][0] == "call" else "listdir" in show(t)
+        if t[0] == "call" and t[1][0] == "sym" and t[1][1] in ("list", "tuple") and len(t[2]) == 1 and not t[3]:
+            return is_listing(t[2][0])
+        return show(t).startswith("os.listdir(")
+    if not is_listing(L):
         # sorted(...) / reversed(...) / list(set(...)) wrappers around the listing
         s = show(L)
         if "listdir" in s:
@@ -329,7 +336,8 @@ def _r5(run):
     # refresh tests check_exists(uniq_id, SENTINEL)
     f = project.fn(PIPE + ".cli.refresh_impl")
     run.note_func(f)
-    ev = sym.make_evaluator(project, PIPE + ".cli", [])
+    ev = sym.make_evaluator(project, PIPE + ".cli", [], inline_local=True)      # marker tests may sit in a module helper,
+    ev.unroll = True                                                            # driven by a literal table of markers
     r = ev.run(f.node)
     ce = [e for e in r.events if e.kind == "call" and e.term[1][0] == "attr" and e.term[1][2] == "check_exists"]
     names = [e.term[2][1] for e in ce if len(e.term[2]) == 2]
@@ -357,8 +365,12 @@ def _r6(run):
     project = run.project
     f = project.fn(PIPE + ".local_io.LocalPipelineIo.put_item")
     run.note_func(f)
-    ev = sym.make_evaluator(project, PIPE + ".local_io", [], inline_local=False)
+    ev = sym.make_evaluator(project, PIPE + ".local_io", [], inline_local=True)
+    ev.self_class = PIPE + ".local_io.LocalPipelineIo"      # "open the item's file" may be a private helper / context manager of the store
+    ev.inline_resolved = True
+    ev.no_inline = ("_make_item_name",)
     r = ev.run(f.node)
+    ev.no_inline = ()
     opens = [e for e in r.events if e.kind == "with" and e.term[0] == "call" and e.term[1] == ("sym", "open")]
     copies = [e for e in r.events if e.kind == "call" and show(e.term[1]) == "shutil.copyfileobj"]
     name = project.fn(PIPE + ".local_io.LocalPipelineIo._make_item_name")
